@@ -226,13 +226,34 @@ pub mod filetime {
 /// (`create_helper`: `.tmp` + 6 alphanumerics, retry on EEXIST).
 pub mod tempfile {
     use super::*;
+    use ::std::fs::Permissions;
     use ::std::io::{Read, Seek, SeekFrom, Write};
 
     const NUM_RETRIES: u32 = 1 << 16;
     const ALNUM: &[u8] = b"abcdefghijklmnopqrstuvwxyzABCDEFGHIJKLMNOPQRSTUVWXYZ0123456789";
 
     fn tmpname() -> String {
-        let mut s = String::from(".tmp");
+        tmpname_with(".tmp", "", 6)
+    }
+
+    fn tmpname_with(prefix: &str, suffix: &str, rand_len: usize) -> String {
+        if rand_len != 6 {
+            // generic length: one draw per character
+            let mut s = String::from(prefix);
+            for _ in 0..rand_len {
+                let c = match k::current() {
+                    Some(ctx) => ctx.sim.lock().tape.draw(62) as usize,
+                    None => {
+                        use ::rand::Rng;
+                        ::rand::thread_rng().gen_range(0..62)
+                    }
+                };
+                s.push(ALNUM[c] as char);
+            }
+            s.push_str(suffix);
+            return s;
+        }
+        let mut s = String::from(prefix);
         match k::current() {
             Some(ctx) => {
                 // one draw per name; a per-run counter keeps names distinct
@@ -255,10 +276,15 @@ pub mod tempfile {
                 }
             }
         }
+        s.push_str(suffix);
         s
     }
 
-    fn create_helper<R>(base: &Path, mut f: impl FnMut(PathBuf) -> io::Result<R>) -> io::Result<R> {
+    fn create_helper<R>(base: &Path, f: impl FnMut(PathBuf) -> io::Result<R>) -> io::Result<R> {
+        create_helper_with(base, ".tmp", "", 6, f)
+    }
+
+    fn create_helper_with<R>(base: &Path, prefix: &str, suffix: &str, rand_len: usize, mut f: impl FnMut(PathBuf) -> io::Result<R>) -> io::Result<R> {
         let base: PathBuf = if base.is_absolute() {
             base.to_path_buf()
         } else if k::attached() {
@@ -267,7 +293,7 @@ pub mod tempfile {
             ::std::env::current_dir()?.join(base)
         };
         for _ in 0..NUM_RETRIES {
-            let path = base.join(tmpname());
+            let path = base.join(tmpname_with(prefix, suffix, rand_len));
             return match f(path) {
                 Err(ref e) if e.kind() == io::ErrorKind::AlreadyExists => continue,
                 Err(ref e) if e.kind() == io::ErrorKind::AddrInUse => continue,
@@ -389,6 +415,70 @@ pub mod tempfile {
     pub struct NamedTempFile {
         path: TempPath,
         file: File,
+    }
+
+    /// `tempfile::Builder`: prefix / suffix / rand_bytes / permissions, named
+    /// and anonymous files in a given directory.
+    #[derive(Debug, Clone)]
+    pub struct Builder<'a, 'b> {
+        prefix: &'a str,
+        suffix: &'b str,
+        rand_len: usize,
+        mode: Option<u32>,
+    }
+
+    impl Default for Builder<'_, '_> {
+        fn default() -> Self {
+            Builder { prefix: ".tmp", suffix: "", rand_len: 6, mode: None }
+        }
+    }
+
+    impl<'a, 'b> Builder<'a, 'b> {
+        pub fn new() -> Self {
+            Self::default()
+        }
+        pub fn prefix(&mut self, prefix: &'a str) -> &mut Self {
+            self.prefix = prefix;
+            self
+        }
+        pub fn suffix(&mut self, suffix: &'b str) -> &mut Self {
+            self.suffix = suffix;
+            self
+        }
+        pub fn rand_bytes(&mut self, n: usize) -> &mut Self {
+            self.rand_len = n;
+            self
+        }
+        pub fn permissions(&mut self, p: Permissions) -> &mut Self {
+            use ::std::os::unix::fs::PermissionsExt;
+            self.mode = Some(p.mode());
+            self
+        }
+        pub fn tempfile(&self) -> io::Result<NamedTempFile> {
+            let dir = if k::attached() { PathBuf::from("/tmp") } else { ::std::env::temp_dir() };
+            self.tempfile_in(dir)
+        }
+        pub fn tempfile_in<P: AsRef<Path>>(&self, dir: P) -> io::Result<NamedTempFile> {
+            if !k::attached() {
+                // passthrough: the real crate, then adopt its file and path
+                let mut b = ::tempfile::Builder::new();
+                b.prefix(self.prefix).suffix(self.suffix).rand_bytes(self.rand_len);
+                let (f, p) = b.tempfile_in(dir)?.into_parts();
+                let path = p.keep().map_err(|e| e.error)?;
+                let file = File::Real(f);
+                if let Some(m) = self.mode {
+                    use ::std::os::unix::fs::PermissionsExt;
+                    file.set_permissions(Permissions::from_mode(m))?;
+                }
+                return Ok(NamedTempFile { path: TempPath { path, keep: false }, file });
+            }
+            let mode = self.mode.unwrap_or(0o600);
+            create_helper_with(dir.as_ref(), self.prefix, self.suffix, self.rand_len, |path| {
+                use ::std::os::unix::fs::OpenOptionsExt;
+                let file = OpenOptions::new().read(true).write(true).create_new(true).mode(mode).open(&path)?;
+                Ok(NamedTempFile { path: TempPath { path, keep: false }, file })
+            })
+        }
     }
 
     impl NamedTempFile {
